@@ -30,6 +30,10 @@ KINDS = {
     'e': ('String', '"dd"', 'dd', 'ee', True),
     'b': ('Boolean', 'true', True, False, True),
     'f': ('Float64', '2', 2.0, 1.5, True),
+    'g': ('Float64', '1.0', 1.0, 0.5, True),
+    'c': ('Boolean', 'false', False, True, True),
+    'h': ('Float32', '0', 0.0, 2.5, True),
+    'i': ('Int64', '1', 1, 0, True),
     't': ('Mode', 'fast', ('tag', 'rt', 'Mode', 'fast'), ('tag', 'rt', 'Mode', 'slow'), True),
     'x': ('other.Xmode', 'on', ('tag', 'other', 'Xmode', 'on'), ('tag', 'other', 'Xmode', 'off'), True),
     'y': ('Amode', 'slow', ('tag', 'rt', 'Mode', 'slow'), ('tag', 'rt', 'Mode', 'fast'), True),              # local alias of a local union
@@ -38,7 +42,7 @@ KINDS = {
     'a': ('Aint', None, None, 5, False),
     'l': ('List(Int32)', None, None, [1, 2], False),
 }
-QUICK_KINDS = ['r', 'n', 'd', 'e', 't', 'x', 'z', 'w', 'a']
+QUICK_KINDS = ['r', 'n', 'd', 'e', 'b', 'g', 't', 'x', 'z', 'w', 'a']
 ALL_KINDS = list(KINDS)
 
 
@@ -406,12 +410,159 @@ def task(item):
     return {'outcome': oc, 'viol': out_v, 'n': n, 'transitions': n}
 
 
+# ---------------------------------------------------------------------------
+# isolated scenarios
+#
+# The packed universe exercises every shape, but in one big API: anything the backend decides from the API as a whole (is
+# any route deprecated?  which namespaces are imported?  was this literal formatted before?) is decided once, by the union
+# of all shapes.  The scenarios below are complete small products in which each spec contains ONE situation and nothing
+# else, generated and imported on its own, in a process forked from the pristine parent.
+
+def gen_client(specs):
+    import importlib
+    import sys
+    out = impl.compile_specs(specs)
+    if out.kind != 'ok':
+        raise explore.InternalError('isolated C14 spec not accepted: %s\n%s' % (out.brief(), specs))
+    root = explore.fresh_dir('c14i')
+    pkgname = impl.fresh_pkg_name('ci')
+    outdir = os.path.join(root, pkgname)
+    for be, args in (('python_types', ['-p', pkgname]), ('python_client', ['-m', 'client', '-c', 'Base', '-t', pkgname])):
+        b = impl.run_backend(out.api, be, args, outdir)
+        if not b.ok:
+            return None, None, ('generate:%s:%s' % (be, b.identity), b.tb)
+    sys.path.insert(0, root)
+    importlib.invalidate_caches()
+    pkg = impl.Package(root, pkgname)
+    try:
+        mods = {n: pkg.mod(n) for n in out.api.namespaces if n != 'stone_cfg'}
+        client = importlib.import_module(pkgname + '.client')
+    except Exception as e:  # noqa
+        import traceback
+        pkg.close()
+        return None, None, ('import:%s' % type(e).__name__, traceback.format_exc()[-1500:])
+    return pkg, dict(mods=mods, client=client), None
+
+
+CFG = ('cfg.stone', 'namespace stone_cfg\n\nstruct Route\n    style String = "rpc"\n')
+
+
+def iso_scenarios(tier):
+    """[(label, specs, [call])]; call = (method, route ns, route attr, arg spec, positional, keyword, deprecated, res_void, style)
+    arg spec: None | ('struct', ns, cls, {field: value}) | ('union', ns, cls, tag, payload|None); values may be ('tag', ns, Union, tag)."""
+    out = []
+    # (a) one route per spec: version x deprecation x argument kind x style x {alone, next to an undeprecated version 1}
+    for ver in (1, 2, 3):
+        for dep in (None, 'plain', 'by'):
+            for argk in ('struct', 'union', 'void'):
+                for style in ('rpc', 'upload', 'download'):
+                    for with_v1 in ((False, True) if ver > 1 else (False,)):
+                        lines = ['namespace iso', '', 'struct Arg', '    a Int32', '    b String = "x"', '', 'union Uarg', '    ua', '    ub String', '']
+                        if dep == 'by':
+                            lines += ['route succ(Void, Void, Void)', '']
+                        if with_v1:
+                            lines += ['route r(Void, Void, Void)', '']
+                        argt = {'struct': 'Arg', 'union': 'Uarg', 'void': 'Void'}[argk]
+                        head = 'route r%s(%s, Void, Void)' % (':%d' % ver if ver != 1 else '', argt)
+                        head += {None: '', 'plain': ' deprecated', 'by': ' deprecated by succ'}[dep]
+                        lines += [head, '    attrs', '        style = "%s"' % style, '']
+                        mname = method_name_for('iso', 'r', ver)
+                        rattr = 'r' if ver == 1 else 'r_v%d' % ver
+                        lead = ['BYTES'] if style == 'upload' else []
+                        if argk == 'struct':
+                            call = (mname, 'iso', rattr, ('struct', 'iso', 'Arg', {'a': 4, 'b': 'x'}), lead + [4], {}, dep is not None, True, style)
+                        elif argk == 'union':
+                            call = (mname, 'iso', rattr, ('union', 'iso', 'Uarg', 'ub', 'p'), lead + [('union', 'iso', 'Uarg', 'ub', 'p')], {}, dep is not None, True, style)
+                        else:
+                            call = (mname, 'iso', rattr, None, lead, {}, dep is not None, True, style)
+                        out.append(('iso:v%d:%s:%s:%s:%s' % (ver, dep, argk, style, 'with-v1' if with_v1 else 'alone'), [('iso.stone', '\n'.join(lines) + '\n'), CFG], [call]))
+    # (b) namespace chains: the argument struct reaches a third namespace only through what it inherits or aliases
+    far = ('far.stone', 'namespace far\n\nunion Fm\n    on\n    off\n\nstruct Fs\n    z Int32 = 7\n')
+    for mid_has_route in (False, True):
+        for far_has_route in (False, True):
+            mid_t = 'namespace mid\n\nimport far\n\nalias Mfm = far.Fm\n\nstruct Mp\n    m far.Fm = on\n    k Int32\n\nstruct Marg\n    q Mfm = off\n    fs far.Fs?\n' + (
+                '\nroute mr(Void, Void, Void)\n' if mid_has_route else '')
+            far_t = far[1] + ('\nroute fr(Void, Void, Void)\n' if far_has_route else '')
+            near = ('namespace near\n\nimport mid\n\nstruct Narg extends mid.Mp\n    n Int32 = 2\n\nalias Nal = mid.Marg\n\nstruct Nhold\n    h mid.Mfm = on\n\n'
+                    'route inh(Narg, Void, Void)\n\nroute foreign(mid.Marg, Void, Void)\n\nroute aliased(Nal, Void, Void)\n\nroute viaalias(Nhold, Void, Void)\n')
+            calls = [
+                ('near_inh', 'near', 'inh', ('struct', 'near', 'Narg', {'k': 5, 'm': ('tag', 'far', 'Fm', 'on'), 'n': 2}), [5], {}, False, True, 'rpc'),
+                ('near_inh', 'near', 'inh', ('struct', 'near', 'Narg', {'k': 5, 'm': ('tag', 'far', 'Fm', 'off'), 'n': 3}), [5], {'m': ('tag', 'far', 'Fm', 'off'), 'n': 3}, False, True, 'rpc'),
+                ('near_foreign', 'near', 'foreign', ('struct', 'mid', 'Marg', {'q': ('tag', 'far', 'Fm', 'off')}), [], {}, False, True, 'rpc'),
+                ('near_aliased', 'near', 'aliased', ('struct', 'mid', 'Marg', {'q': ('tag', 'far', 'Fm', 'on')}), [], {'q': ('tag', 'far', 'Fm', 'on')}, False, True, 'rpc'),
+                ('near_viaalias', 'near', 'viaalias', ('struct', 'near', 'Nhold', {'h': ('tag', 'far', 'Fm', 'on')}), [], {}, False, True, 'rpc'),
+            ]
+            out.append(('iso:chain:mid-route=%s:far-route=%s' % (mid_has_route, far_has_route), [('near.stone', near), ('mid.stone', mid_t), ('far.stone', far_t), CFG], calls))
+    # (c) pairs of literal defaults: every ordered pair of literals of different kinds in one argument struct
+    lits = [('Boolean', 'true', True), ('Boolean', 'false', False), ('Float64', '1.0', 1.0), ('Float64', '0.0', 0.0), ('Float32', '1', 1.0), ('Int32', '1', 1), ('Int64', '0', 0),
+            ('String', '"1"', '1'), ('String', '"true"', 'true'), ('UInt32', '1', 1), ('Float64', '-0.0', -0.0), ('String', '"1.0"', '1.0')]
+    for i, (t1, l1, v1) in enumerate(lits):
+        for j, (t2, l2, v2) in enumerate(lits):
+            if i == j:
+                continue
+            text = 'namespace iso\n\nstruct Arg\n    x %s = %s\n    y %s = %s\n\nroute r(Arg, Void, Void)\n' % (t1, l1, t2, l2)
+            out.append(('iso:literal-pair:%s=%s,%s=%s' % (t1, l1, t2, l2), [('iso.stone', text), CFG],
+                        [('iso_r', 'iso', 'r', ('struct', 'iso', 'Arg', {'x': v1, 'y': v2}), [], {}, False, True, 'rpc')]))
+    return out
+
+
+def iso_task(item):
+    label, specs, calls = item
+    pkg, u, fail = gen_client(specs)
+    inputs = {'scenario': label, 'specs': specs, 'shape_class': label.split(':')[1]}
+    if pkg is None:
+        return {'outcome': 'iso:' + fail[0].split(':')[0], 'viol': [viol('isolated:%s:%s' % (label.split(':')[1], fail[0]), 'isolated scenario %s: %s\n%s' % (label, fail[0], (fail[1] or '')[-600:]), inputs)], 'n': 1}
+    oc = collections.Counter()
+    out_v = []
+    try:
+        def val(v):
+            if isinstance(v, tuple) and v and v[0] == 'tag':
+                return getattr(getattr(u['mods'][v[1]], v[2]), v[3])
+            if isinstance(v, tuple) and v and v[0] == 'union':
+                cls = getattr(u['mods'][v[1]], v[2])
+                return getattr(cls, v[3]) if v[4] is None else getattr(cls, v[3])(v[4])
+            return v
+        for mname, rns, rattr, argspec, pos, kw, deprecated, res_void, style in calls:
+            route_obj = getattr(u['mods'][rns], rattr, None)
+            if argspec is None:
+                exp_arg = None
+            elif argspec[0] == 'struct':
+                exp_arg = build(getattr(u['mods'][argspec[1]], argspec[2]), {k: val(v) for k, v in argspec[3].items()})
+            else:
+                exp_arg = val(argspec)
+            fn = getattr(u['client'].Base, mname, None)
+            bad = []
+            if fn is not None and argspec is not None and argspec[0] == 'struct':
+                # defaults in the signature are type-exact
+                for p in list(inspect.signature(fn).parameters.values())[1:]:
+                    if p.name in argspec[3] and p.default is not inspect.Parameter.empty and p.name not in kw:
+                        expd = val(argspec[3][p.name])
+                        if p.default != expd or type(p.default) is not type(expd) or repr(p.default) != repr(expd):
+                            bad.append(('signature-default', 'parameter %s of %s has default %r, expected %r' % (p.name, mname, p.default, expd)))
+            body = 'BYTES' if style == 'upload' else None
+            bad += check_call(u, mname, [val(x) for x in pos], {k: val(v) for k, v in kw.items()}, route_obj, rns, exp_arg, body, deprecated, res_void, False, inputs)
+            if bad:
+                oc['iso:differs'] += 1
+                for ident, what in bad:
+                    out_v.append(viol('%s:isolated:%s' % (ident, label.split(':')[1]), '%s [isolated scenario %s]' % (what, label), dict(inputs, method=mname)))
+            else:
+                oc['iso:ok:%s' % label.split(':')[1]] += 1
+    finally:
+        pkg.close()
+    return {'outcome': oc, 'viol': out_v, 'n': len(calls), 'transitions': len(calls)}
+
+
 TIER = ['quick']
 
 
 def run(tier, seed):
     TIER[0] = tier
     r = explore.Run(PROP, tier, seed)
+    # the isolated scenarios run first, while this process is still small and has generated nothing (cheap, pristine forks)
+    iso = iso_scenarios(tier)
+    r.bounds['isolated_scenarios'] = len(iso)
+    r.sample({'isolated_scenario': iso[5][0], 'specs': iso[5][1][:1]})
+    r.run_tasks(iso_task, iso, budget=120, fresh=True)
     try:
         u = universe(tier)
     except rtbase.UniverseError as e:
@@ -422,14 +573,23 @@ def run(tier, seed):
                      'max_fields': 3 if tier == 'quick' else 4, 'union_and_void_routes': len(u['extra']), 'versions': [1, 2, 3],
                      'deprecation': ['none', 'plain', 'by'], 'styles': ['rpc', 'upload', 'download'], 'calls': ['all-positional', 'all-keyword', 'required-only']})
     r.sample({'shape': u['shapes'][10], 'fields': u['structs']['A10'], 'route': u['routes'][10]})
-    r.run_tasks(task, items, budget=120, chunksize=16)
+    r.run_tasks(task, items, budget=120, chunksize=16, order_base=len(iso))
     r.assumptions = ['alias-of-nullable fields are exercised separately (their required/optional status is not settled by backend_ref.rst)']
     r.finish('complete product of argument-struct shapes (field-kind sequences x inheritance splits) + union/Void arguments over versions, '
-             'deprecation, styles and result kinds; namespace layouts; each method: signature and three call forms against a recording request()')
+             'deprecation, styles and result kinds; namespace layouts; each method: signature and three call forms against a recording request(); '
+             'isolated scenarios (one situation per spec, fresh process): version x deprecation x argument kind x style, namespace chains, ordered pairs of literal defaults')
 
 
 def replay(rep):
     TIER[0] = 'quick'
+    if isinstance(rep.get('inputs'), dict) and rep['inputs'].get('scenario'):
+        for it in iso_scenarios('quick'):
+            if it[0] == rep['inputs']['scenario']:
+                if iso_task(it)['viol']:
+                    print('VIOLATION property=%s replay=replayed' % PROP)
+                    return 1
+                return 0
+        return 2
     u = universe('quick')
     for it in [('struct', i) for i in range(len(u['routes']))] + [('extra', i) for i in range(len(u['extra']))] + [('layout', 0)]:
         if any(v['id'] == rep['identity'] for v in task(it)['viol']):
